@@ -24,6 +24,10 @@ def obligations(tier):
         obs.append(dict(name="aws-readkeys-secret-zero-at-free-lines-%d-%d" % (l0, l1), harness="../C15/rdkeys.c", entry="h_readkeys", defs=["L0=%d" % l0, "L1=%d" % l1, "NLINES=2"], cpu=[], srcs=MZ, unwind=44, unwindset=["insecure_memzero_func.0:50"], timeout=to, flags=["--memory-leak-check"],
                         claim="aws_readkeys on every 2-line file with lines of %d and %d arbitrary bytes: whenever the call fails after a secret line was read (unknown name, duplicate, no separator, missing EOL, missing id, close failure), the heap copy of the secret is all-zero when it is released, exactly once; nothing leaks" % (l0, l1),
                         bounds="2 lines of %d and %d bytes" % (l0, l1), stubs=["fopen/fgets/ferror/fclose -> scripted file", "strdup -> exact-size copy", "free -> checking wrapper", "strcspn -> C model"]))
+    for fl in [2, 5]:
+        obs.append(dict(name="readpass-file-buffer-wiped-len%d" % fl, harness="../C15/rdpass.c", entry="h_readpass", defs=["FL=%d" % fl], cpu=[], unwind=fl + 4, timeout=to, flags=["--memory-leak-check"],
+                        claim="readpass_file: the whole 2048-byte stack buffer that held the passphrase is handed to insecure_memzero exactly once, after its last use, on every path (success, open/read/close failure, second line)", bounds="file length %d" % fl,
+                        stubs=["stdio -> scripted file", "insecure_memzero -> recording stub (its own body: the other C20 obligations)"]))
     # Diffie-Hellman: BIGNUMs derived from the private exponent / blinding value are released with BN_clear_free (C10 model, taint bits)
     for o in _load("C10").obligations(tier):
         if o["name"].startswith("dh-modexp-") and ("ok-resultlen255" in o["name"] or "fail-at-call" in o["name"]):
